@@ -1,8 +1,10 @@
 """C20 - host trust and the debugger's gates cannot be bypassed (structural clauses).
 
-Guards are compared as canonical atoms (wzsa/guards.py) with local aliases and
-boolean flags expanded, and small predicate / normalisation helpers are followed,
-so restructured conditions, hoisted conjuncts and extracted helpers read the same.
+Every rule is decided on the *meaning* of the code: the functions are executed symbolically, path by path, with
+private helpers inlined (wzsa/rules/_c20_helpers.py).  What is compared is the ordered list of decisions
+(canonical atoms over terms built from the parameters) that precedes an effect or a verdict on each path, so
+renamed locals, flags, split / merged / flipped conditions, early returns, extracted or inlined helpers,
+partition vs split, conditional expressions and values carried through locals all read the same.
 """
 
 from __future__ import annotations
@@ -10,74 +12,141 @@ from __future__ import annotations
 import ast
 
 from .. import astq
-from ..cfg import CFG, Node, cfg_of
-from ..dataflow import ReachingDefs
-from ..guards import Aliases, atom, canon, guard_set, has
-from ..loader import AnalysisError, FuncInfo, dotted, norm, walk_no_nested
+from ..loader import AnalysisError, FuncInfo, dotted, norm
 from ..report import Ctx
+from ._c20_helpers import NONE, TRUE, Ev, Path, Term, canon_atom, const, explore, int_le, is_const, mentions, show, subst, subterms
 
 LEVEL_TEXT = (
-    "Static decision of structural clauses of C20 on /repo's current source: (R20.1) frame evaluation is reachable only "
-    "from execute_command, which is called only from the dispatcher under the conjunction evalex & cmd & frame & secret "
-    "equality & PIN trust inside the __debugger__ branch, and inside it only past the host check; (R20.2) in every "
-    "debugger command handler every statement is dominated by the true edge of the host check, whose false edge returns "
-    "SecurityError; console/pinauth/printpin are dispatched only under their documented guards; (R20.3) the PIN "
-    "comparison is reachable only below the failure threshold (constant 10, strict), every rejecting branch counts a "
-    "failure, the counter is a strict increment under its lock, the cookie is issued only when authenticated; (R20.4) "
-    "cookie trust is truthy only with the PIN off or after hash equality and the expiry comparison, malformed values "
-    "return False; (R20.5) host_is_trusted returns True only under equality or a dot-anchored suffix test of a dotted "
-    "entry, both sides pass the same normalisation, port stripping is bracket-aware, every exception of the idna codec "
-    "yields False, and get_host / Request.host enforce the list with SecurityError. It decides these clauses on all "
-    "paths; the strength of PIN and secret is not decided."
+    "Static decision of structural clauses of C20 on /repo's current source, by path-wise symbolic execution with private "
+    "helpers inlined: (R20.1) frame evaluation occurs only in execute_command (or helpers only it calls), which is dispatched "
+    "only after the decisions evalex, cmd is not None, frame is not None (frame looked up in self.frames), secret equality, "
+    "PIN trust and __debugger__ == 'yes' on every path of the dispatcher, and evaluates only past a positive host check; "
+    "(R20.2) in every debugger command handler nothing happens before the host check and a negative check returns "
+    "SecurityError; console / pinauth / printpin are dispatched only under their documented decisions and from nowhere else; "
+    "check_host_trust is host_is_trusted(Host header, self.trusted_hosts); (R20.3) the submitted PIN is compared only after "
+    "the failure counter was found to be at most ten, the cookie is issued and `auth` reported only for a trusted cookie or a "
+    "matching PIN, a wrong PIN and a forged cookie each increment the counter (strict +1 under its lock), the counter is "
+    "reset only by a matching PIN; (R20.4) cookie trust is truthy only with the PIN off or after hash equality and the strict "
+    "expiry comparison, a hash mismatch yields None, malformed values yield False; (R20.5) host_is_trusted is truthy only "
+    "after equality or a dot-anchored suffix test of a dot-prefixed entry, both sides pass the same normalisation including "
+    "the idna codec, port stripping is bracket-aware, every exception of the idna codec yields False, and get_host / "
+    "Request.host / wsgi.get_host enforce the list with SecurityError. The strength of PIN and secret is not decided."
 )
-TRUSTED = ["CPython ast", "the idna codec raises UnicodeError (base class) for empty or over-long labels (CPython Lib/encodings/idna.py)"]
-ASSUMPTIONS = ["letter-case variants of a trusted host may go either way (as the property states)"]
+TRUSTED = [
+    "CPython ast",
+    "the idna codec raises UnicodeError (base class) for empty or over-long labels (CPython Lib/encodings/idna.py); int() raises ValueError",
+    "wrappers.Request(environ).environ is the environ it was given",
+]
+ASSUMPTIONS = [
+    "letter-case variants of a trusted host may go either way (as the property states)",
+    "loops over the trusted list are unrolled twice (state leaking between iterations is seen for two consecutive entries)",
+]
+
+SELF: Term = ("param", "self")
+# functions with a role of their own in the property: they are summarised by their own rules, never inlined
+ROLE = {
+    "__call__", "__init__", "check_host_trust", "check_pin_trust", "pin_auth", "log_pin_request", "execute_command", "display_console",
+    "get_resource", "debug_application", "hash_pin", "get_pin_and_cookie_name", "host_is_trusted", "get_host",
+}
 
 
-class F:
-    def __init__(self, fi: FuncInfo):
-        self.fi = fi
-        self.cfg = cfg_of(fi)
-        self.rd = ReachingDefs(self.cfg, fi.params)
-        self.al = Aliases(self.cfg, self.rd)
-
-    def g(self, node: Node) -> set[tuple[str, bool]]:
-        return self.al.guard_set(node)
-
-    def tests(self):
-        return [t for t in self.cfg.tests() if t.kind == "test"]
+def A(base: Term, *names: str) -> Term:
+    for n in names:
+        base = ("attr", base, n)
+    return base
 
 
-def _fmt(g) -> list[str]:
-    return sorted(f"{k}:{'T' if v else 'F'}" for k, v in g)
+def C(f: Term, *args: Term, **kw: Term) -> Term:
+    return ("call", f, tuple(args), tuple(sorted(kw.items())))
 
 
-def _any(g, *texts: str, value: bool = True) -> bool:
-    return any(has(g, t, value) for t in texts)
+def N(name: str) -> Term:
+    return ("name", name)
+
+
+def key(x: Term) -> Term:
+    return canon_atom(x)[0]
+
+
+def _is_call_to(x: Term, recv: Term | None, name: str) -> bool:
+    if x[0] != "call":
+        return False
+    f = x[1]
+    if recv is None:
+        return f == ("name", name) or (f[0] == "attr" and f[2] == name)
+    return f == ("attr", recv, name)
+
+
+def _cond(d: dict[Term, bool]) -> str:
+    return " & ".join(("" if v else "not ") + "(" + show(k) + ")" for k, v in d.items()) or "(unconditional)"
+
+
+def _callers(repo, name: str) -> list[tuple[FuncInfo, ast.Call]]:
+    out = []
+    for fi in repo.all_functions():
+        for c in astq.calls(fi.node):
+            if (isinstance(c.func, ast.Attribute) and c.func.attr == name) or (isinstance(c.func, ast.Name) and c.func.id == name):
+                out.append((fi, c))
+    return out
 
 
 def run(ctx: Ctx) -> None:
-    repo = ctx.repo
     for rid, text in {
-        "R20.1": "frame.eval is reachable only through execute_command <- __call__ under evalex & cmd is not None & frame is not None & secret equality & check_pin_trust, in the __debugger__ == 'yes' branch; inside execute_command only past the host check",
-        "R20.2": "in execute_command, display_console, pin_auth, log_pin_request every statement is dominated by the true edge of check_host_trust; the false edge returns SecurityError; dispatch guards of console / pinauth / printpin",
-        "R20.3": "PIN compare only under `failed <= 10`; rejecting branches call _fail_pin_auth; counter strictly incremented under its lock; set_cookie only under auth",
-        "R20.4": "check_pin_trust is truthy only with the PIN off or after hash equality and expiry comparison; malformed cookie -> False",
-        "R20.5": "host_is_trusted: True only under equality or dot-anchored suffix of a dotted entry; same normalisation both sides; bracket-aware port strip; idna errors -> False; get_host raises SecurityError; Request.host forwards trusted_hosts",
+        "R20.1": "frame evaluation happens only in execute_command, which the dispatcher calls only after deciding evalex & cmd is not None & frame is not None & secret equality & check_pin_trust in the __debugger__ == 'yes' branch (on every path, through helpers); inside execute_command only past the host check",
+        "R20.2": "in execute_command, display_console, pin_auth, log_pin_request nothing happens before a positive check_host_trust and a negative one returns SecurityError; dispatch decisions of console / pinauth / printpin; check_host_trust is host_is_trusted(Host header, trusted_hosts)",
+        "R20.3": "the PIN is compared only after `failed <= 10` was decided; cookie / auth only for a trusted cookie or a matching PIN; wrong PIN and forged cookie increment the counter (strict +1 under its lock); counter reset only by a matching PIN",
+        "R20.4": "check_pin_trust is truthy only with the PIN off or after hash equality and the strict expiry comparison; hash mismatch -> None; malformed cookie -> False",
+        "R20.5": "host_is_trusted: truthy only after equality or a dot-anchored suffix test of a dot-prefixed entry; same normalisation (with idna) both sides; bracket-aware port strip; idna errors -> False; get_host raises SecurityError; Request.host / wsgi.get_host forward trusted_hosts",
     }.items():
         ctx.rule(rid, text)
+    _dispatch_rules(ctx)
+    _handler_rules(ctx)
+    _pin_auth_rules(ctx)
+    _pin_trust_rules(ctx)
+    _host_rules(ctx)
+    _enforcement_rules(ctx)
 
+
+def _app(ctx: Ctx):
+    app = ctx.repo.cls("debug.DebuggedApplication")
+    for m in ("__call__", "execute_command", "display_console", "pin_auth", "log_pin_request", "check_pin_trust", "check_host_trust"):
+        if m not in app.methods:
+            raise AnalysisError(f"DebuggedApplication.{m} missing")
+    return app
+
+
+# ---------------------------------------------------------------------------------------------------------------
+# R20.1 / R20.2: the dispatcher
+
+
+def _dispatch_rules(ctx: Ctx) -> None:
+    repo = ctx.repo
+    app = _app(ctx)
     dbg = repo.module("debug")
-    app = repo.cls("debug.DebuggedApplication")
-    call = app.methods.get("__call__")
-    if call is None:
-        raise AnalysisError("DebuggedApplication.__call__ missing")
+    call = app.methods["__call__"]
     ctx.saw(call)
-    fc = F(call)
-    ccfg = fc.cfg
+    if len(call.params) < 2:
+        raise AnalysisError("DebuggedApplication.__call__ takes no environ")
+    ENV: Term = ("param", call.params[1])
+    ex = explore(call, ROLE)
+    closure = {call.qualname} | ex.inlined
+    for q in sorted(ex.inlined):
+        fi = repo.try_func(f"debug.{q}")
+        if fi is not None:
+            ctx.saw(fi)
 
-    # ---------------- R20.1 -------------------------------------------
-    evals = []
+    def in_closure(fi: FuncInfo) -> bool:
+        return fi.module is dbg and fi.qualname in closure
+
+    # helpers of the dispatcher must not be entered from anywhere else (their guards live in the caller)
+    for q in sorted(ex.inlined):
+        nm = q.rsplit(".", 1)[-1]
+        # (a private name is looked for in its own module, a public one everywhere)
+        outside = [f.fq for f, _ in _callers(repo, nm) if not in_closure(f) and (f.module is dbg or not nm.startswith("_"))]
+        ctx.ob("R20.2", f"dispatcher helper {nm} is entered only from the dispatcher", not outside, f"other callers: {outside}", call, call.node, f"dispatch helper {nm} callers")
+
+    # --- eval sites
+    evals: list[tuple[FuncInfo, ast.Call]] = []
     # _ConsoleFrame is the evaluator itself (its eval() is what execute_command calls); every other function of the module is a potential caller
     for fi in list(dbg.functions.values()) + [m for c in dbg.classes.values() if c.name != "_ConsoleFrame" for m in c.methods.values()]:
         for c in astq.calls(fi.node):
@@ -85,398 +154,592 @@ def run(ctx: Ctx) -> None:
                 evals.append((fi, c))
             if dotted(c.func) in ("eval", "exec"):
                 evals.append((fi, c))
-    ctx.ob("R20.1", "frame evaluation occurs only in execute_command", [x.qualname for x, _ in evals] == ["DebuggedApplication.execute_command"], f"eval sites: {[x.qualname for x, _ in evals]}", app.methods["execute_command"], evals[0][1] if evals else None, "eval sites")
-    callers = [(fi, c) for fi in repo.all_functions() for c in astq.calls(fi.node) if isinstance(c.func, ast.Attribute) and c.func.attr == "execute_command"]
-    ctx.ob("R20.1", "execute_command is called only from the dispatcher", [x.qualname for x, _ in callers] == ["DebuggedApplication.__call__"], f"callers: {[x.fq for x, _ in callers]}", call, callers[0][1] if callers else None, "execute_command callers")
-    if callers:
-        cn = ccfg.node_of(callers[0][1])
-        g = fc.g(cn)
-        need = {
-            "evaluation enabled": ("self.evalex",),
-            "a command is given": ("cmd is not None", "request.args.get('cmd') is not None"),
-            "the frame exists": ("frame is not None",),
-            "the secret matches": ("self.secret == secret", "self.secret == request.args.get('s')"),
-            "the PIN cookie is trusted": ("self.check_pin_trust(environ)", "self.check_pin_trust(request.environ)"),
-            "inside the debugger branch": ("request.args.get('__debugger__') == 'yes'",),
-        }
-        for what, alts in need.items():
-            ctx.ob("R20.1", f"eval dispatch requires: {what}", _any(g, *alts), f"dominating guards of the call: {_fmt(g)}", call, callers[0][1], f"eval gate {what}")
-        a = callers[0][1].args
-        ctx.ob("R20.1", "the tested cmd and frame are the ones evaluated", len(a) == 3 and norm(a[1]) == "cmd" and norm(a[2]) == "frame", f"args {[norm(x) for x in a]}", call, callers[0][1], "eval args")
-        for nm, src in (("secret", "request.args.get('s')"), ("cmd", "request.args.get('cmd')")):
-            ds = [norm(v) for _, v in astq.assigns_to(call.node, nm) if v is not None]
-            ctx.ob("R20.1", f"`{nm}` is the request's parameter", ds == [src], f"{ds}", call, call.node, f"slot {nm}")
-        ds = [norm(v) for _, v in astq.assigns_to(call.node, "frame") if v is not None]
-        ctx.ob("R20.1", "`frame` is looked up in self.frames (unknown id -> None)", len(ds) == 1 and ds[0].startswith("self.frames.get("), f"{ds}", call, call.node, "slot frame")
+    xc = app.methods["execute_command"]
+    ctx.saw(xc)
+    xex = explore(xc, ROLE)
+    xclosure = {xc.qualname} | xex.inlined
+    stray = []
+    for fi, _ in evals:
+        if fi.qualname not in xclosure:
+            stray.append(fi.qualname)
+        elif fi is not xc:
+            stray += [f"{fi.qualname} <- {f.qualname}" for f, _ in _callers(repo, fi.name) if not (f.module is dbg and f.qualname in xclosure) and (f.module is dbg or not fi.name.startswith("_"))]
+    ctx.ob("R20.1", "frame evaluation occurs only in execute_command (or helpers only it calls)", bool(evals) and not stray, f"eval sites: {sorted({x.qualname for x, _ in evals})}; outside execute_command: {stray}", xc, evals[0][1] if evals else None, "eval sites")
 
-    # ---------------- R20.2 -------------------------------------------
-    handlers = ["execute_command", "display_console", "pin_auth", "log_pin_request"]
-    nh = 0
-    for hn in handlers:
-        fi = app.methods.get(hn)
-        if fi is None:
-            raise AnalysisError(f"DebuggedApplication.{hn} missing")
-        ctx.saw(fi)
-        cfg = cfg_of(fi)
-        ht = [t for t in cfg.tests() if t.kind == "test" and isinstance(t.ast, ast.Call) and isinstance(t.ast.func, ast.Attribute) and t.ast.func.attr == "check_host_trust"]
-        nh += 1
-        if len(ht) != 1:
-            ctx.ob("R20.2", f"{hn} checks the Host", False, f"{len(ht)} host check(s)", fi, fi.node, f"{hn} host check")
-            continue
-        t = ht[0]
-        arg_ok = len(t.ast.args) == 1 and norm(t.ast.args[0]) in ("request.environ",)
-        others = [n for n in cfg.nodes if n.ast is not None and n is not t and n.kind in ("stmt", "test", "loop", "with") and not (isinstance(n.ast, ast.Expr) and isinstance(n.ast.value, ast.Constant))]
-        fside = cfg.succ(t, "F")
-        fret = bool(fside) and all(isinstance(s.ast, ast.Return) and norm(s.ast.value).startswith("SecurityError(") for s in fside)
-        undominated = [n for n in others if n not in fside and not cfg.edge_dominates(t, "T", n)]
-        ctx.ob("R20.2", f"{hn}: every statement is behind the host check", arg_ok and not undominated and fret, f"host check on request.environ: {arg_ok}; false edge returns SecurityError: {fret}; statements not dominated by the true edge: {[n.text()[:40] for n in undominated]}", fi, t.ast, f"{hn} host gate")
-    ctx.floor("R20.2", "command handlers with a host check", nh, 4)
-    for meth, need2 in (
-        ("display_console", [("self.evalex",), ("self.console_path is not None",), ("request.path == self.console_path",)]),
-        ("pin_auth", [("cmd == 'pinauth'",), ("secret == self.secret",), ("request.args.get('__debugger__') == 'yes'",)]),
-        ("log_pin_request", [("cmd == 'printpin'",), ("secret == self.secret",), ("request.args.get('__debugger__') == 'yes'",)]),
+    # --- every dispatch of a command handler, on every path
+    want = ["execute_command", "display_console", "pin_auth", "log_pin_request"]
+    sites: dict[str, list[tuple[Path, Ev]]] = {m: [] for m in want}
+    for p in ex.paths:
+        for e in p.events:
+            if e.kind == "call":
+                for m in want:
+                    if _is_call_to(e.term, SELF, m):
+                        sites[m].append((p, e))
+    for m in want:
+        outside = [f.fq for f, _ in _callers(repo, m) if not in_closure(f)]
+        ctx.ob("R20.1" if m == "execute_command" else "R20.2", f"{m} is called only from the dispatcher", not outside, f"other callers: {outside}", call, call.node, f"{m} callers")
+        if not sites[m]:
+            raise AnalysisError(f"DebuggedApplication.__call__ never dispatches {m} (the dispatcher is not understood)")
+    reqs = {e.term[2][0] if e.term[2] else None for m in want for _, e in sites[m]}
+    REQ = C(N("Request"), ENV)
+    if reqs != {REQ}:
+        raise AnalysisError(f"the request object handed to the command handlers is not Request(environ): {[show(r) if r else None for r in reqs]}")
+    ARGS = A(REQ, "args")
+
+    def q(name: str) -> Term:
+        return C(A(ARGS, "get"), const(name))
+
+    CMD, SECRET = q("cmd"), q("s")
+    DEBUGGER = key(("cmp", "eq", q("__debugger__"), const("yes")))
+    SECRET_EQ = key(("cmp", "eq", SECRET, A(SELF, "secret")))
+    EVALEX = key(A(SELF, "evalex"))
+    PIN_TRUST = key(C(A(SELF, "check_pin_trust"), ENV))
+
+    def cmd_is(word: str) -> Term:
+        return key(("cmp", "eq", CMD, const(word)))
+
+    def not_none(d: dict[Term, bool], x: Term) -> bool:
+        if d.get(("cmp", "is", x, NONE)) is False or d.get(x) is True:
+            return True
+        return any(v and k[0] == "cmp" and k[1] == "eq" and ((k[2] == x and is_const(k[3]) and k[3] != NONE) or (k[3] == x and is_const(k[2]) and k[2] != NONE)) for k, v in d.items())
+
+    def gate(rule: str, meth: str, what: str, test, construct: str) -> None:
+        bad = [(p, e) for p, e in sites[meth] if not test(p.decided(e.pc_len), e)]
+        p0, e0 = (bad or sites[meth])[0]
+        fact = f"{len(sites[meth])} path(s) reach the call; " + (f"one without it: {_cond(p0.decided(e0.pc_len))}" if bad else f"decided before the call on each, e.g. {_cond(p0.decided(e0.pc_len))}")
+        ctx.ob(rule, what, not bad, fact, call, e0.node, construct)
+
+    gate("R20.1", "execute_command", "eval dispatch requires: evaluation enabled", lambda d, e: d.get(EVALEX) is True, "eval gate evaluation enabled")
+    gate("R20.1", "execute_command", "eval dispatch requires: a command is given", lambda d, e: len(e.term[2]) == 3 and not_none(d, e.term[2][1]), "eval gate a command is given")
+    gate("R20.1", "execute_command", "eval dispatch requires: the frame exists", lambda d, e: len(e.term[2]) == 3 and not_none(d, e.term[2][2]), "eval gate the frame exists")
+    gate("R20.1", "execute_command", "eval dispatch requires: the secret matches", lambda d, e: d.get(SECRET_EQ) is True, "eval gate the secret matches")
+    gate("R20.1", "execute_command", "eval dispatch requires: the PIN cookie is trusted", lambda d, e: d.get(PIN_TRUST) is True, "eval gate the PIN cookie is trusted")
+    gate("R20.1", "execute_command", "eval dispatch requires: inside the debugger branch", lambda d, e: d.get(DEBUGGER) is True, "eval gate inside the debugger branch")
+    gate("R20.1", "execute_command", "the tested command is the request's `cmd` parameter and it is what is evaluated", lambda d, e: len(e.term[2]) == 3 and e.term[2][1] == CMD, "slot cmd")
+    gate(
+        "R20.1", "execute_command", "the evaluated frame is looked up in self.frames (unknown id -> None)",
+        lambda d, e: len(e.term[2]) == 3 and ((e.term[2][2][0] == "call" and e.term[2][2][1] == A(SELF, "frames", "get") and len(e.term[2][2][2]) == 1) or (e.term[2][2][0] == "sub" and e.term[2][2][1] == A(SELF, "frames"))), "slot frame",
+    )
+    for meth, needs in (
+        ("display_console", [("evaluation enabled", EVALEX), ("a console path is configured", ("cmp", "is", A(SELF, "console_path"), NONE)), ("the request path is the console path", key(("cmp", "eq", A(REQ, "path"), A(SELF, "console_path"))))]),
+        ("pin_auth", [("cmd == 'pinauth'", cmd_is("pinauth")), ("the secret matches", SECRET_EQ), ("inside the debugger branch", DEBUGGER)]),
+        ("log_pin_request", [("cmd == 'printpin'", cmd_is("printpin")), ("the secret matches", SECRET_EQ), ("inside the debugger branch", DEBUGGER)]),
     ):
-        cs = [c for c in astq.calls(call.node) if isinstance(c.func, ast.Attribute) and c.func.attr == meth]
-        if len(cs) != 1:
-            ctx.ob("R20.2", f"dispatcher calls {meth} once", False, f"{len(cs)} call(s)", call, call.node, f"dispatch {meth}")
-            continue
-        g = fc.g(ccfg.node_of(cs[0]))
-        miss = [alts[0] for alts in need2 if not _any(g, *alts)]
-        ctx.ob("R20.2", f"dispatch of {meth} is guarded", not miss, f"missing guards {miss}; has {_fmt(g)}", call, cs[0], f"dispatch {meth} guards")
-        other_callers = [x.fq for x in repo.all_functions() for c in astq.calls(x.node) if isinstance(c.func, ast.Attribute) and c.func.attr == meth and x is not call]
-        ctx.ob("R20.2", f"{meth} has no other caller", not other_callers, f"{other_callers}", call, cs[0], f"{meth} callers")
+        def test(d, e, needs=needs):
+            for what, k in needs:
+                if k[0] == "cmp" and k[1] == "is":
+                    if not not_none(d, k[2]):
+                        return False
+                elif d.get(k) is not True:
+                    return False
+            return True
+
+        gate("R20.2", meth, f"dispatch of {meth} is guarded ({', '.join(w for w, _ in needs)})", test, f"dispatch {meth} guards")
+
+    # --- inside execute_command: evaluation only past the host check
+    if len(xc.params) < 2:
+        raise AnalysisError("execute_command takes no request")
+    HOST = key(C(A(SELF, "check_host_trust"), A(("param", xc.params[1]), "environ")))
+    ev_sites = [(p, e) for p in xex.paths for e in p.events if e.kind == "call" and ((e.term[1][0] == "attr" and e.term[1][2] in ("eval", "runsource", "runcode", "exec")) or e.term[1] in (N("eval"), N("exec")))]
+    if not ev_sites:
+        raise AnalysisError("execute_command: no evaluation call found on any path")
+    bad = [(p, e) for p, e in ev_sites if p.decided(e.pc_len).get(HOST) is not True]
+    p0, e0 = (bad or ev_sites)[0]
+    ctx.ob("R20.1", "code is evaluated only after a positive host check", not bad, f"{len(ev_sites)} path(s) evaluate; decisions before: {_cond(p0.decided(e0.pc_len))}", xc, e0.node, "eval past host check")
+    frame_p = ("param", xc.params[3]) if len(xc.params) > 3 else None
+    cmd_p = ("param", xc.params[2]) if len(xc.params) > 2 else None
+    okargs = all(e.term[1] == ("attr", frame_p, "eval") and e.term[2] == (cmd_p,) for _, e in ev_sites)
+    ctx.ob("R20.1", "the evaluated command and frame are the ones the dispatcher tested", okargs, f"`{show(ev_sites[0][1].term)}`", xc, ev_sites[0][1].node, "eval args")
+
+
+# ---------------------------------------------------------------------------------------------------------------
+# R20.2: host gate of every handler
+
+
+def _handler_rules(ctx: Ctx) -> None:
+    app = _app(ctx)
+    n = 0
+    for hn in ("execute_command", "display_console", "pin_auth", "log_pin_request"):
+        fi = app.methods[hn]
+        ctx.saw(fi)
+        if len(fi.params) < 2:
+            raise AnalysisError(f"{hn} takes no request")
+        HCALL = C(A(SELF, "check_host_trust"), A(("param", fi.params[1]), "environ"))
+        HOST = key(HCALL)
+        ex = explore(fi, ROLE)
+        n += 1
+        problems: list[str] = []
+        node: ast.AST | None = None
+        checks = 0
+        for p in ex.paths:
+            d = p.decided()
+            hc = [e for e in p.events if e.kind == "call" and e.term == HCALL]
+            checks = max(checks, len(hc))
+            if not hc or d.get(HOST) is None:
+                problems.append(f"a path never decides the host check: {p.describe()}")
+                continue
+            node = node or hc[0].node
+            # (building the SecurityError that is returned for an untrusted host is the one thing allowed on the negative side)
+            early = [e for e in p.events if e not in hc and e.kind != "load" and p.decided(e.pc_len).get(HOST) is not True and not (d.get(HOST) is False and e.term == p.value)]
+            if early:
+                problems.append(f"`{show(early[0].term)}` (line {getattr(early[0].node, 'lineno', '?')}) happens before a positive host check")
+            if d.get(HOST) is False:
+                sec = p.outcome == "return" and p.value is not None and p.value[0] == "call" and p.value[1][0] in ("name", "attr") and p.value[1][-1] == "SecurityError"
+                if not sec:
+                    problems.append(f"an untrusted host yields `{p.outcome} {show(p.value) if p.value else ''}` instead of `return SecurityError()`")
+        problems = sorted(set(problems))
+        ctx.ob("R20.2", f"{hn}: nothing happens before a positive host check, a negative one returns SecurityError", not problems, "; ".join(problems[:3]) or f"{len(ex.paths)} path(s), each starts with check_host_trust(request.environ)", fi, node or fi.node, f"{hn} host gate")
+    ctx.floor("R20.2", "command handlers with a host check", n, 4)
     cht = app.methods["check_host_trust"]
-    ctx.ob("R20.2", "check_host_trust is host_is_trusted(Host header, self.trusted_hosts)", any(norm(r.value) == "host_is_trusted(environ.get('HTTP_HOST'), self.trusted_hosts)" for r in astq.returns_of(cht.node)), "", cht, cht.node, "check_host_trust body")
+    ctx.saw(cht)
+    if len(cht.params) < 2:
+        raise AnalysisError("check_host_trust takes no environ")
+    HT = key(C(N("host_is_trusted"), C(A(("param", cht.params[1]), "get"), const("HTTP_HOST")), A(SELF, "trusted_hosts")))
+    ex = explore(cht, ROLE, want_truth=True)
+    bad = []
+    for p in ex.paths:
+        d = p.decided()
+        if p.outcome != "return" or d.get(HT) is None or p.truthy is not d.get(HT):
+            bad.append(f"{p.outcome} {show(p.value) if p.value else p.exc} under {p.describe()}")
+    ctx.ob("R20.2", "check_host_trust is host_is_trusted(Host header, self.trusted_hosts)", not bad, "; ".join(bad[:2]) or "verdict == host_is_trusted(environ.get('HTTP_HOST'), self.trusted_hosts) on every path", cht, cht.node, "check_host_trust body")
 
-    # ---------------- R20.3 -------------------------------------------
+
+# ---------------------------------------------------------------------------------------------------------------
+# R20.3: pin_auth and the failure counter
+
+COUNTER: Term = A(SELF, "_failed_pin_auth", "value")
+LOCK: Term = C(A(SELF, "_failed_pin_auth", "get_lock"))
+
+
+def _is_increment(e: Ev) -> bool:
+    return e.kind == "store" and e.term == COUNTER and e.value == ("binop", "+", COUNTER, const(1))
+
+
+def _pin_auth_rules(ctx: Ctx) -> None:
+    app = _app(ctx)
     pa = app.methods["pin_auth"]
-    fp = F(pa)
-    cfg = fp.cfg
-    thr = []
-    for t in fp.tests():
-        e = fp.al.expand(t.ast, t)
-        if isinstance(e, ast.Compare) and len(e.ops) == 1 and "_failed_pin_auth.value" in norm(e) and isinstance(e.ops[0], (ast.Gt, ast.GtE, ast.Lt, ast.LtE)):
-            thr.append((t, e))
-    pin_cmp = []
-    for t in fp.tests():
-        e = fp.al.expand(t.ast, t)
-        txt = norm(e)
-        if "request.args['pin']" in txt and ("pin" in {n.id for n in ast.walk(e) if isinstance(n, ast.Name)} or "self.pin" in txt):
-            pin_cmp.append((t, e))
-    if len(thr) != 1 or len(pin_cmp) < 1:
-        raise AnalysisError(f"pin_auth: threshold test ({len(thr)}) / PIN comparison ({len(pin_cmp)}) slots not found")
-    th, th_e = thr[0]
-    # every test that looks at the submitted PIN must sit below the threshold; the last one in program order is the
-    # reference for the match / mismatch edges
-    pin_cmp.sort(key=lambda x: x[0].lineno)
-    pc, pc_e = pin_cmp[-1]
-    extra_pin_tests = [t for t, _ in pin_cmp[:-1]]
-    pin_eq_ok, match_label, pin_fact = _pin_test_shape(ctx, pa, pc_e)
-    ctx.ob("R20.3", "the PIN test is an equality of the submitted and the configured PIN", pin_eq_ok, pin_fact, pa, pc.ast, "pin comparison shape")
-    miss_label = "F" if match_label == "T" else "T"
-    # canonical forms: `v > 10` -> "10 < v" (true = exceeded); `v >= 11` -> "v < 11" (false = exceeded)
-    k, p = canon(th_e)
-    exceeded_label = None
-    if k == "10 < self._failed_pin_auth.value":
-        exceeded_label = "T" if p else "F"
-    elif k == "self._failed_pin_auth.value < 11":
-        exceeded_label = "F" if p else "T"
-    ctx.ob("R20.3", "failure threshold is `more than ten failures`", exceeded_label is not None, f"`{norm(th.ast)}` (canonical `{k}`)", pa, th.ast, "pin threshold constant")
-    below = "F" if exceeded_label == "T" else "T"
-    all_below = exceeded_label is not None and all(cfg.edge_dominates(th, below, t) for t in [pc] + extra_pin_tests)
-    ctx.ob("R20.3", "PIN is compared only below the failure threshold", all_below, f"{1 + len(extra_pin_tests)} test(s) on the submitted PIN, each dominated by the not-exceeded edge of the threshold test: {all_below}", pa, pc.ast, "pin compare below threshold")
-    auth_sets = [n for n in cfg.nodes if isinstance(n.ast, ast.Assign) and astq.is_name(n.ast.targets[0], "auth") and norm(n.ast.value) == "True"]
-    trust_t = [t for t in fp.tests() if norm(t.ast) == "trust"]
-    ok = bool(auth_sets)
-    facts = []
-    for a_ in auth_sets:
-        by_pin = cfg.edge_dominates(pc, match_label, a_)
-        by_trust = any(cfg.edge_dominates(t, "T", a_) for t in trust_t)
-        facts.append(f"L{a_.lineno}: pin-compare={by_pin} cookie-trust={by_trust}")
-        ok = ok and (by_pin or by_trust)
-    ctx.ob("R20.3", "auth becomes True only by a trusted cookie or a matching PIN", ok, "; ".join(facts), pa, pa.node, "auth sources")
-    tdefs = [norm(v) for _, v in astq.assigns_to(pa.node, "trust") if v is not None]
-    ctx.ob("R20.3", "`trust` is check_pin_trust(request.environ)", tdefs == ["self.check_pin_trust(request.environ)"], f"{tdefs}", pa, pa.node, "trust source")
-    other_auth = [norm(s) for s, v in astq.assigns_to(pa.node, "auth") if v is None or norm(v) not in ("True", "False")]
-    ctx.ob("R20.3", "auth is only ever assigned constants", not other_auth, f"{other_auth}", pa, pa.node, "auth constants")
-    fails = [cfg.node_of(c) for c in astq.calls(pa.node) if isinstance(c.func, ast.Attribute) and c.func.attr == "_fail_pin_auth"]
-    f_on_wrong = any(cfg.edge_dominates(pc, miss_label, x) for x in fails)
-    none_t = [t for t in fp.tests() if canon(t.ast)[0] == "trust is None"]
-    f_on_bad_cookie = bool(none_t) and any(cfg.edge_dominates(none_t[0], "T" if canon(none_t[0].ast)[1] else "F", x) for x in fails)
-    ctx.ob("R20.3", "a wrong PIN and a forged cookie each count as a failure", f_on_wrong and f_on_bad_cookie, f"wrong PIN -> _fail_pin_auth: {f_on_wrong}; bad cookie hash -> _fail_pin_auth: {f_on_bad_cookie}", pa, pa.node, "failures counted")
-    wrong_paths_ok = all(cfg.all_paths_pass(s, [cfg.exit], [x for x in fails if x is not None]) for s in cfg.succ(pc, miss_label))
-    ctx.ob("R20.3", "no path from a wrong PIN to the response skips the failure counter", wrong_paths_ok, "", pa, pc.ast, "wrong pin always counted")
-    sc = [cfg.node_of(c) for c in astq.calls(pa.node) if isinstance(c.func, ast.Attribute) and c.func.attr == "set_cookie"]
-    ctx.ob("R20.3", "the PIN cookie is issued only when authenticated", bool(sc) and all(has(guard_set(cfg, s), "auth") for s in sc), f"{len(sc)} set_cookie call(s)", pa, pa.node, "cookie only under auth")
-    resets = [n for n in cfg.nodes if isinstance(n.ast, ast.Assign) and "_failed_pin_auth.value" in norm(n.ast.targets[0])]
-    ctx.ob("R20.3", "the failure counter is reset only by a matching PIN", all(cfg.edge_dominates(pc, match_label, n) and norm(n.ast.value) == "0" for n in resets), f"{[norm(n.ast) for n in resets]}", pa, pa.node, "counter reset")
-    fpa = app.methods["_fail_pin_auth"]
-    ctx.saw(fpa)
-    incs = [s for s in ast.walk(fpa.node) if isinstance(s, (ast.Assign, ast.AugAssign)) and "_failed_pin_auth.value" in norm(s.targets[0] if isinstance(s, ast.Assign) else s.target)]
-    ok = False
-    fact = f"{[norm(s) for s in incs]}"
-    if len(incs) == 1:
-        s = incs[0]
-        if isinstance(s, ast.AugAssign):
-            ok = isinstance(s.op, ast.Add) and isinstance(s.value, ast.Constant) and s.value.value == 1
-        else:
-            v = s.value
-            if isinstance(v, ast.BinOp) and isinstance(v.op, ast.Add) and (isinstance(v.left, ast.Constant) or isinstance(v.right, ast.Constant)):
-                one, base = (v.right, v.left) if isinstance(v.right, ast.Constant) else (v.left, v.right)
-                if one.value == 1:
-                    if isinstance(base, ast.Name):
-                        ds = [norm(x) for _, x in astq.assigns_to(fpa.node, base.id) if x is not None]
-                        ok = ds == ["self._failed_pin_auth.value"]
-                    else:
-                        ok = norm(base) == "self._failed_pin_auth.value"
-        lock = astq.enclosing(s, (ast.With,))
-        locked = isinstance(lock, ast.With) and any("get_lock()" in norm(i.context_expr) for i in lock.items)
-        fact += f"; strict +1 of the stored value: {ok}; under get_lock(): {locked}"
-        ok = ok and locked
-    ctx.ob("R20.3", "_fail_pin_auth strictly increments the shared counter under its lock", ok, fact, fpa, fpa.node, "counter increment")
+    ctx.saw(pa)
+    REQ: Term = ("param", pa.params[1])
+    TRUSTCALL = C(A(SELF, "check_pin_trust"), A(REQ, "environ"))
+    T = key(TRUSTCALL)
+    T_NONE: Term = ("cmp", "is", TRUSTCALL, NONE)
+    PINSUB: Term = ("sub", A(REQ, "args"), const("pin"))
+    SELFPIN = A(SELF, "pin")
+    ex = explore(pa, ROLE, watch=lambda x: x == COUNTER)
+    for q in sorted(ex.inlined):
+        fi = ctx.repo.try_func(f"debug.{q}")
+        if fi is not None:
+            ctx.saw(fi)
+    paths = ex.paths
 
-    # ---------------- R20.4 -------------------------------------------
+    # the PIN comparison: every decision that looks at the submitted PIN
+    pin_keys: dict[Term, bool] = {}
+    for p in paths:
+        for k, _ in p.pc:
+            if mentions(k, PINSUB) and k not in pin_keys:
+                good = False
+                if k[0] == "cmp" and k[1] == "eq":
+                    for a, b in ((k[2], k[3]), (k[3], k[2])):
+                        if mentions(a, PINSUB) and not mentions(a, SELFPIN) and mentions(b, SELFPIN) and not mentions(b, PINSUB):
+                            good = True
+                pin_keys[k] = good
+    if not pin_keys:
+        raise AnalysisError("pin_auth: no decision on the submitted PIN (request.args['pin']) found on any path")
+    ctx.ob("R20.3", "the PIN test is an equality of the submitted and the configured PIN", all(pin_keys.values()), "; ".join(f"`{show(k)}`" for k in pin_keys), pa, pa.node, "pin comparison shape")
+    eqs = {k for k, g in pin_keys.items() if g}
+
+    def pin_index(p: Path) -> int | None:
+        idx = [i for i, (k, _) in enumerate(p.pc) if k in pin_keys]
+        return min(idx) if idx else None
+
+    # threshold before comparison, and its constant
+    below_bad: list[str] = []
+    consts: set[int] = set()
+    n_cmp = 0
+    for p in paths:
+        i = pin_index(p)
+        if i is None:
+            continue
+        n_cmp += 1
+        about = [(k, v) for k, v in p.pc[:i] if mentions(k, COUNTER)]
+        cs = [c for c in (int_le(k, v, COUNTER) for k, v in about) if c is not None]
+        if about and not cs and all(int_le(k, not v, COUNTER) is None for k, v in about):
+            # the counter was consulted, but not in a form `counter <=/>/</>= constant`
+            raise AnalysisError(f"pin_auth: the test on the failure counter is not understood: {[show(k) for k, _ in about]}")
+        if not cs:
+            below_bad.append(p.describe())
+        consts.update(cs)
+    ctx.ob("R20.3", "PIN is compared only below the failure threshold", not below_bad, f"{n_cmp} path(s) compare the PIN" + (f"; without a preceding `failures <= N` decision: {below_bad[0]}" if below_bad else ", each after a `failures <= N` decision"), pa, pa.node, "pin compare below threshold")
+    ctx.ob("R20.3", "failure threshold is `more than ten failures`", bool(consts) and consts == {10}, f"the PIN is compared when failures <= {sorted(consts)}", pa, pa.node, "pin threshold constant")
+
+    def authenticated(d: dict[Term, bool], p: Path, upto: int) -> bool:
+        if d.get(T) is True:
+            return True
+        for i, (k, v) in enumerate(p.pc[:upto]):
+            if k in eqs and v and any(int_le(k2, v2, COUNTER) is not None for k2, v2 in p.pc[:i]):
+                return True
+        return False
+
+    # cookie and reported auth
+    cookies = [(p, e) for p in paths for e in p.events if e.kind == "call" and e.term[1][0] == "attr" and e.term[1][2] == "set_cookie"]
+    if not cookies:
+        raise AnalysisError("pin_auth: no set_cookie call on any path")
+    bad = [(p, e) for p, e in cookies if not authenticated(p.decided(e.pc_len), p, e.pc_len)]
+    p0, e0 = (bad or cookies)[0]
+    ctx.ob("R20.3", "the PIN cookie is issued only for a trusted cookie or a matching PIN below the threshold", not bad, f"{len(cookies)} path(s) issue it" + (f"; one under {_cond(p0.decided(e0.pc_len))}" if bad else ""), pa, e0.node, "cookie only under auth")
+    by_pin = [1 for p, e in cookies if p.decided(e.pc_len).get(T) is not True]
+    if not by_pin:
+        raise AnalysisError("pin_auth: no path issues the cookie after a PIN comparison (authentication is not understood)")
+    rep_bad: list[str] = []
+    rep_n = 0
+    for p in paths:
+        for e in p.events:
+            if e.kind == "call" and e.term[1][0] == "attr" and e.term[1][2] == "dumps" and e.term[2] and e.term[2][0][0] == "dict":
+                for k, v in e.term[2][0][1]:
+                    if k == const("auth"):
+                        rep_n += 1
+                        kk, pol = canon_atom(v)
+                        tv = None if p.decided().get(kk) is None else p.decided().get(kk) == pol
+                        if tv is not False and not authenticated(p.decided(), p, len(p.pc)):
+                            rep_bad.append(f"auth={show(v)} under {p.describe()}")
+    if rep_n:
+        ctx.ob("R20.3", "auth is reported true only for a trusted cookie or a matching PIN below the threshold", not rep_bad, "; ".join(rep_bad[:2]) or f"{rep_n} path(s) report", pa, pa.node, "auth sources")
+    else:
+        ctx.note("pin_auth: no json.dumps({'auth': ...}) found; the reported auth field is not checked")
+
+    # cookie trust source
+    others = sorted({show(e.term) for p in paths for e in p.events if e.kind == "call" and _is_call_to(e.term, SELF, "check_pin_trust") and e.term != TRUSTCALL})
+    ctx.ob("R20.3", "cookie trust is check_pin_trust(request.environ)", not others, f"other calls: {others}", pa, pa.node, "trust source")
+
+    # failures counted
+    wrong_bad: list[str] = []
+    forged_bad: list[str] = []
+    n_wrong = n_forged = 0
+    for p in paths:
+        d = p.decided()
+        i = pin_index(p)
+        if i is not None and p.pc[i][0] in eqs and p.pc[i][1] is False and p.outcome == "return":
+            n_wrong += 1
+            if not any(_is_increment(e) and e.pc_len > i for e in p.events):
+                wrong_bad.append(p.describe())
+        if d.get(T_NONE) is True and p.outcome == "return":
+            n_forged += 1
+            if not any(_is_increment(e) for e in p.events):
+                forged_bad.append(p.describe())
+    if not n_forged:
+        raise AnalysisError("pin_auth: no path decides `check_pin_trust(...) is None` (forged cookie handling is not understood)")
+    ctx.ob("R20.3", "a wrong PIN and a forged cookie each count as a failure on every path", not wrong_bad and not forged_bad, f"wrong-PIN paths {n_wrong} (uncounted: {wrong_bad[:1]}); forged-cookie paths {n_forged} (uncounted: {forged_bad[:1]})", pa, pa.node, "failures counted")
+
+    # stores to the counter: strict increments under the lock, or a reset after a matching PIN
+    stores = [(p, e) for p in paths for e in p.events if e.kind == "store" and (e.term == COUNTER or e.term == A(SELF, "_failed_pin_auth"))]
+    reset_bad: list[str] = []
+    inc_bad: list[str] = []
+    n_inc = 0
+    inc_node = None
+    for p, e in stores:
+        if _is_increment(e):
+            n_inc += 1
+            inc_node = inc_node or e.node
+            locks = [wid for wid, w in e.withs if w == LOCK]
+            loads = [x for x in p.events if x.kind == "load" and x.term == COUNTER and p.events.index(x) < p.events.index(e)]
+            same = bool(locks) and bool(loads) and locks[-1] in [wid for wid, _ in loads[-1].withs]
+            if not same:
+                inc_bad.append(f"read and write of the counter inside one `with get_lock()`: {same} (in {e.fn})")
+        elif e.value == const(0) and e.term == COUNTER:
+            d = p.decided(e.pc_len)
+            if not any(k in eqs and v for k, v in d.items()):
+                reset_bad.append(f"reset under {_cond(d)}")
+        else:
+            inc_bad.append(f"`{show(e.term)} = {show(e.value) if e.value else '?'}` in {e.fn} is neither a strict +1 nor a reset to 0")
+    ctx.ob("R20.3", "the failure counter is reset only by a matching PIN", not reset_bad, "; ".join(sorted(set(reset_bad))[:2]), pa, pa.node, "counter reset")
+    where = app.methods.get("_fail_pin_auth", pa)
+    ctx.ob("R20.3", "every failure strictly increments the shared counter under its lock", not inc_bad and n_inc > 0, "; ".join(sorted(set(inc_bad))[:2]) or f"{n_inc} increment(s) on the explored paths, each `value = value + 1` with read and write under get_lock()", where, inc_node or where.node, "counter increment")
+
+
+# ---------------------------------------------------------------------------------------------------------------
+# R20.4: check_pin_trust
+
+
+def _linear(k: Term) -> frozenset | None:
+    """`L < R` as the signed multiset of the summands of L - R."""
+    if k[0] != "cmp" or k[1] != "lt":
+        return None
+    out: list[tuple[int, Term]] = []
+
+    def add(x: Term, sign: int) -> None:
+        if x[0] == "binop" and x[1] in ("+", "-"):
+            add(x[2], sign)
+            add(x[3], sign if x[1] == "+" else -sign)
+        else:
+            out.append((sign, x))
+
+    add(k[2], 1)
+    add(k[3], -1)
+    return frozenset((s, x, sum(1 for y in out if y == (s, x))) for s, x in out)
+
+
+def _pin_trust_rules(ctx: Ctx) -> None:
+    repo = ctx.repo
+    app = _app(ctx)
     cp = app.methods["check_pin_trust"]
     ctx.saw(cp)
-    fcp = F(cp)
-    cfg = fcp.cfg
-    n4 = 0
-    exp_key = atom("time.time() - PIN_TIME < ts")
-    for r in astq.returns_of(cp.node):
-        node = cfg.node_of(r)
-        v = norm(r.value)
-        g = fcp.g(node)
-        n4 += 1
-        if v == "True":
-            ok = has(g, "self.pin is None") and len({k for k, _ in g}) == 1
-            exp = "True only when the PIN is switched off"
-            cons = "True"
-        elif v in ("False", "None"):
-            ok = True
-            exp = "falsy"
-            cons = v
-        else:
-            shape = canon(r.value) == exp_key
-            hashed = has(g, "pin_hash == hash_pin(self.pin)")
-            ok = shape and hashed
-            exp = f"expiry comparison (canonical `{canon(r.value)[0]}`; shape ok: {shape}) after hash equality (dominated: {hashed})"
-            cons = canon(r.value)[0]
-        ctx.ob("R20.4", f"check_pin_trust `return {v}`", ok, f"{exp}; guards {_fmt(g)}", cp, r, f"pin trust return {cons}")
-    ctx.floor("R20.4", "returns of check_pin_trust", n4, 3)
-    ints = [c for c in astq.calls(cp.node) if dotted(c.func) == "int"]
-    ok = bool(ints)
-    sep_ok = bool(ints)
-    for c in ints:
-        tr = astq.enclosing(c, (ast.Try,))
-        ok = ok and isinstance(tr, ast.Try) and any((dotted(h.type) or "") in ("ValueError", "Exception") and any(isinstance(s, ast.Return) and norm(s.value) == "False" for s in h.body) for h in tr.handlers)
-        g = fcp.g(cfg.node_of(c))
-        via_in = any(k.startswith("'|' in ") and v for k, v in g)
-        via_part = False
-        for st in walk_no_nested(cp.node):
-            if isinstance(st, ast.Assign) and isinstance(st.targets[0], ast.Tuple) and isinstance(st.value, ast.Call) and isinstance(st.value.func, ast.Attribute) and st.value.func.attr in ("partition", "rpartition") and st.value.args and astq.const_str(st.value.args[0]) == "|" and len(st.targets[0].elts) == 3 and isinstance(st.targets[0].elts[1], ast.Name):
-                via_part = via_part or has(g, st.targets[0].elts[1].id)
-        sep_ok = sep_ok and (via_in or via_part)
-    ctx.ob("R20.4", "a non-numeric timestamp yields False", ok, "int(ts_str) inside try/except ValueError -> return False", cp, cp.node, "timestamp parse")
-    ctx.ob("R20.4", "a cookie without '|' yields False before it is taken apart", sep_ok, "the timestamp is parsed only under a positive separator test", cp, cp.node, "cookie separator test")
+    ENV: Term = ("param", cp.params[1])
+    ex = explore(cp, ROLE, want_truth=True)
+    paths = ex.paths
+    PIN_OFF: Term = ("cmp", "is", A(SELF, "pin"), NONE)
+    vs = set()
+    for p in paths:
+        for x in subterms((tuple(k for k, _ in p.pc), p.value, tuple(e.term for e in p.events))):
+            if x[0] in ("head", "tail") and len(x) == 3 and x[2] == const("|"):
+                vs.add(x[1])
+    if len(vs) != 1:
+        raise AnalysisError(f"check_pin_trust: the cookie is not taken apart at '|' by split(.., 1) / partition in an understood way ({len(vs)} candidate values)")
+    V = next(iter(vs))
+    src_ok = mentions(V, C(N("parse_cookie"), ENV)) and mentions(V, A(SELF, "pin_cookie_name"))
+    ctx.ob("R20.4", "the examined value is the PIN cookie of the request", src_ok, f"`{show(V)}`", cp, cp.node, "cookie source")
+    HASH = key(("cmp", "eq", ("tail", V, const("|")), C(N("hash_pin"), A(SELF, "pin"))))
+    TS = C(N("int"), ("head", V, const("|")))
+    HAS_SEP: Term = ("cmp", "in", const("|"), V)
+    EXPIRY = _linear(("cmp", "lt", ("binop", "-", C(A(N("time"), "time")), N("PIN_TIME")), TS))
+
+    n_true = 0
+    for p in paths:
+        if p.outcome != "return":
+            continue
+        d = p.decided()
+        if p.truthy:
+            n_true += 1
+            if d.get(PIN_OFF) is True:
+                ok = p.value == TRUE
+                why = "PIN switched off"
+                cons = "True"
+            else:
+                fresh = any(v and _linear(k) == EXPIRY for k, v in p.pc)
+                hashed = d.get(HASH) is True
+                ok = fresh and hashed
+                why = f"after hash equality: {hashed}; strict expiry comparison `time.time() - PIN_TIME < int(timestamp)` holds: {fresh}"
+                cons = "expiry comparison"
+            ctx.ob("R20.4", "check_pin_trust is truthy only with the PIN off or for a fresh cookie with the right hash", ok, f"`return {show(p.value)}` under {p.describe()}: {why}", cp, p.node or cp.node, f"pin trust return {cons}")
+    ctx.floor("R20.4", "truthy verdicts of check_pin_trust (PIN off, fresh cookie)", n_true, 2)
+    raising = sorted({f"{p.exc} at line {getattr(p.node, 'lineno', '?')}" for p in paths if p.outcome == "raise"})
+    ctx.ob("R20.4", "a non-numeric timestamp yields False", not raising, f"escaping exceptions: {raising}" if raising else "int(timestamp) failing with ValueError ends in a falsy verdict on every path", cp, cp.node, "timestamp parse")
+    parses = [(p, e) for p in paths for e in p.events if e.kind == "call" and e.term == TS]
+    if not parses:
+        raise AnalysisError("check_pin_trust: int(<timestamp part>) not found on any path")
+    bad = [p.describe() for p, e in parses if p.decided(e.pc_len).get(HAS_SEP) is not True]
+    ctx.ob("R20.4", "a cookie without '|' yields False before it is taken apart", not bad, f"timestamp parsed without a positive separator test: {bad[0]}" if bad else "the timestamp is parsed only after a positive separator test", cp, parses[0][1].node, "cookie separator test")
+    mism = [p for p in paths if p.outcome == "return" and p.decided().get(HASH) is False]
+    badm = [f"`return {show(p.value)}`" for p in mism if p.value != NONE]
+    # (when the hash is never compared the truthy-verdict obligation above has already failed)
+    ctx.ob("R20.4", "a cookie with a wrong hash yields None (so that pin_auth counts it)", bool(mism) and not badm, "; ".join(sorted(set(badm))) or f"{len(mism)} path(s) decide the hash comparison negatively", cp, (mism[0].node if mism else None) or cp.node, "hash mismatch verdict")
     hp = repo.func("debug.hash_pin")
     ctx.ob("R20.4", "hash_pin is a salted sha1 prefix of the PIN", "sha1" in norm(hp.node) and "pin" in norm(hp.node), "", hp, hp.node, "hash_pin")
 
-    # ---------------- R20.5 -------------------------------------------
-    _host_rules(ctx)
+
+# ---------------------------------------------------------------------------------------------------------------
+# R20.5: host_is_trusted
 
 
-def _pin_test_shape(ctx: Ctx, pa: FuncInfo, e: ast.AST) -> tuple[bool, str, str]:
-    """(is an equality of submitted vs configured PIN, label of the matching edge, fact)"""
-    pos = True
-    while isinstance(e, ast.UnaryOp) and isinstance(e.op, ast.Not):
-        e = e.operand
-        pos = not pos
-    if isinstance(e, ast.Compare) and len(e.ops) == 1 and isinstance(e.ops[0], (ast.Eq, ast.NotEq)):
-        eq = isinstance(e.ops[0], ast.Eq)
-        sides = {("request.args['pin']" in norm(e.left)), ("request.args['pin']" in norm(e.comparators[0]))}
-        ok = sides == {True, False}
-        return ok, ("T" if eq == pos else "F"), f"`{norm(e)}`"
-    if isinstance(e, ast.Call):
-        d = dotted(e.func)
-        f = pa.module.functions.get(d or "")
-        if f is not None:
-            rets = astq.returns_of(f.node)
-            if len(rets) == 1 and isinstance(rets[0].value, ast.Compare) and isinstance(rets[0].value.ops[0], ast.Eq) and len(f.params) == 2:
-                c = rets[0].value
-                names_l = {n.id for n in ast.walk(c.left) if isinstance(n, ast.Name)} & set(f.params)
-                names_r = {n.id for n in ast.walk(c.comparators[0]) if isinstance(n, ast.Name)} & set(f.params)
-                ok = len(names_l) == 1 and len(names_r) == 1 and names_l != names_r
-                return ok, ("T" if pos else "F"), f"helper {d}: `return {norm(c)}`"
-    return False, "T", f"unrecognised PIN test `{norm(e)}`"
+def _roots(x: Term, L: Term) -> set[Term]:
+    r = {s for s in subterms(x) if s[0] == "elem" and mentions(s[1], L)}
+    if not r and mentions(x, L):
+        r = {L}
+    return r
 
 
-def _shape_of(v: ast.AST, var: str) -> str:
-    """normalisation applied to `var`: the expression text with the variable replaced by `_`."""
-    src = ast.parse(ast.unparse(v), mode="eval").body
-
-    class T(ast.NodeTransformer):
-        def visit_Name(self, n):  # noqa: N802
-            return ast.copy_location(ast.Name(id="_", ctx=n.ctx), n) if n.id == var else n
-
-    return norm(T().visit(src))
+def _has_idna(x: Term) -> bool:
+    return any(s[0] == "call" and s[1][0] == "attr" and s[1][2] == "encode" and s[2] and s[2][0] == const("idna") for s in subterms(x))
 
 
 def _host_rules(ctx: Ctx) -> None:
     repo = ctx.repo
     hit = repo.func("sansio.utils.host_is_trusted")
     ctx.saw(hit)
-    fh = F(hit)
-    cfg = fh.cfg
-    # module-level helpers reachable from host_is_trusted (transitively)
-    scope = [hit]
-    i = 0
-    while i < len(scope):
-        for c in astq.calls(scope[i].node):
-            d = dotted(c.func)
-            if d and d in hit.module.functions and hit.module.functions[d] not in scope:
-                scope.append(hit.module.functions[d])
-        i += 1
-    trues = [cfg.node_of(r) for r in astq.returns_of(hit.node) if norm(r.value) == "True"]
-    eq_t = [t for t in fh.tests() if canon(t.ast)[0] == "hostname == ref"]
-    suf_t = [t for t in fh.tests() if isinstance(t.ast, ast.Call) and isinstance(t.ast.func, ast.Attribute) and t.ast.func.attr == "endswith" and astq.is_name(t.ast.func.value, "hostname")]
-    ok = bool(trues) and len(eq_t) == 1
-    fact = f"return True sites: {len(trues)}; equality tests: {len(eq_t)}; suffix tests: {len(suf_t)}"
-    if ok:
-        avoid = [(eq_t[0], "T" if canon(eq_t[0].ast)[1] else "F")] + [(s, "T") for s in suf_t]
-        r = cfg.reach(avoid_edges=avoid)
-        leak = [t for t in trues if t.id in r]
-        ok = not leak
-        if leak:
-            fact += "; `return True` reachable without the equality or the suffix test: " + cfg.fmt_path(cfg.path(cfg.entry, leak[0], avoid_edges=avoid) or [])
-    ctx.ob("R20.5", "True only under `ref == hostname` or the accepted suffix idiom `hostname.endswith('.' + ref)`", ok, fact + " (accepted subdomain idioms: dot-anchored str.endswith of the normalised entry)", hit, hit.node, "host match conditions")
-    flags = _dot_flags(fh)
-    for s in suf_t:
-        a = s.ast.args[0] if s.ast.args else None
-        dot = False
-        if isinstance(a, ast.JoinedStr) and len(a.values) == 2 and astq.const_str(a.values[0]) == "." and isinstance(a.values[1], ast.FormattedValue) and astq.is_name(a.values[1].value, "ref"):
-            dot = True
-        if isinstance(a, ast.BinOp) and isinstance(a.op, ast.Add) and astq.const_str(a.left) == "." and astq.is_name(a.right, "ref"):
-            dot = True
-        g = guard_set(cfg, s)
-        flagged = any((fl, True) in g for fl in flags) or has(g, "ref.startswith('.')")
-        ctx.ob("R20.5", "suffix test is dot-anchored and only for dot-prefixed entries", dot and flagged, f"`{norm(s.ast)}`; dot-anchored: {dot}; only when the entry started with '.': {flagged} (flags {sorted(flags)})", hit, s.ast, "suffix test shape")
-    ctx.ob("R20.5", "suffix matching is enabled exactly for entries starting with '.'", bool(flags) or not suf_t, f"dot flags {sorted(flags)}", hit, hit.node, "suffix flag")
-    hshape = [_shape_of(v, "hostname") for _, v in astq.assigns_to(hit.node, "hostname") if v is not None]
-    rshape = [_shape_of(v, "ref") for _, v in astq.assigns_to(hit.node, "ref") if v is not None and norm(v) not in ("ref[1:]",) and not (isinstance(v, ast.Call) and isinstance(v.func, ast.Attribute) and v.func.attr in ("removeprefix", "lstrip"))]
-    same = bool(hshape) and bool(rshape) and all(h == hshape[0] for h in hshape) and all(r == hshape[0] for r in rshape)
-    ctx.ob("R20.5", "Host and entry pass the same normalisation", same, f"host: {hshape}; entry: {rshape}", hit, hit.node, "normalisation symmetry")
-    idna = any(isinstance(c.func, ast.Attribute) and c.func.attr == "encode" and c.args and astq.const_str(c.args[0]) == "idna" for fi in scope for c in astq.calls(fi.node))
-    ctx.ob("R20.5", "names are compared in IDNA (ASCII) form", idna, f"normalisation {hshape}", hit, hit.node, "idna normalisation")
+    if len(hit.params) < 2:
+        raise AnalysisError("host_is_trusted takes fewer than two parameters")
+    HN: Term = ("param", hit.params[0])
+    L: Term = ("param", hit.params[1])
+    X: Term = ("name", "<name>")
+    ex = explore(hit, {"host_is_trusted", "get_host"}, want_truth=True)
+    for q in sorted(ex.inlined):
+        fi = repo.try_func(f"sansio.utils.{q}")
+        if fi is not None:
+            ctx.saw(fi)
+    paths = ex.paths
+
+    def is_dotted(d: dict[Term, bool], root: Term) -> bool:
+        """was the listed entry found to start with '.' (startswith / first-character comparison)?"""
+        first = [("sub", root, ("slice", NONE, const(1), NONE)), ("sub", root, ("slice", const(0), const(1), NONE)), ("sub", root, const(0))]
+        return d.get(C(A(root, "startswith"), const("."))) is True or any(d.get(key(("cmp", "eq", f, const(".")))) is True for f in first)
+
+    host_forms: set[Term] = set()
+    entry_forms: set[Term] = set()
+    leaks: list[str] = []
+    strip_bad: list[str] = []
+    suffix_bad: list[str] = []
+    n_true = 0
+    first_true: Path | None = None
+
+    def entry_side(e: Term, d: dict[Term, bool]) -> Term | None:
+        """the entry side with its base (the listed entry, minus its leading dot) replaced by the placeholder."""
+        rs = _roots(e, L)
+        if len(rs) != 1 or mentions(e, HN):
+            return None
+        root = next(iter(rs))
+        sliced = ("sub", root, ("slice", const(1), NONE, NONE))
+        prefix = C(A(root, "removeprefix"), const("."))
+        if mentions(e, sliced):
+            if not is_dotted(d, root):
+                strip_bad.append(f"`{show(sliced)}` without a decided leading dot")
+            e = subst(e, sliced, X)
+        e = subst(e, prefix, X)
+        return subst(e, root, X)
+
+    for p in paths:
+        if p.outcome != "return" or not p.truthy:
+            continue
+        n_true += 1
+        first_true = first_true or p
+        d = p.decided()
+        matched = False
+        notes: list[str] = []
+        for k, v in p.pc:
+            if not v:
+                continue
+            if k[0] == "cmp" and k[1] == "eq":
+                for h, e in ((k[2], k[3]), (k[3], k[2])):
+                    if mentions(h, HN) and not _roots(h, L):
+                        es = entry_side(e, d)
+                        if es is not None:
+                            matched = True
+                            host_forms.add(subst(h, HN, X))
+                            entry_forms.add(es)
+            if k[0] == "call" and k[1][0] == "attr" and k[1][2] == "endswith" and len(k[2]) == 1 and mentions(k[1][1], HN) and not _roots(k[1][1], L):
+                arg = k[2][0]
+                rs = _roots(arg, L)
+                anchored = arg[0] == "concat" and len(arg[1]) == 2 and arg[1][0] == const(".")
+                only_dotted = len(rs) == 1 and is_dotted(d, next(iter(rs)))
+                if anchored and only_dotted:
+                    es = entry_side(arg[1][1], d)
+                    if es is not None:
+                        matched = True
+                        host_forms.add(subst(k[1][1], HN, X))
+                        entry_forms.add(es)
+                else:
+                    notes.append(f"`{show(k)}`: dot-anchored: {anchored}; only for an entry that started with '.': {only_dotted}")
+        if not matched:
+            if notes:
+                suffix_bad += notes
+            else:
+                leaks.append(p.describe())
+    if not n_true:
+        raise AnalysisError("host_is_trusted: no path with a truthy verdict (the function is not understood)")
+    ctx.ob(
+        "R20.5", "truthy only after `entry == host` or the accepted suffix idiom `host.endswith('.' + entry)`", not leaks,
+        (f"truthy verdict without either test under: {leaks[0][:600]}" if leaks else f"{n_true} truthy path(s)") + " (accepted subdomain idiom: dot-anchored str.endswith of the normalised entry)",
+        hit, (first_true.node if first_true else None) or hit.node, "host match conditions",
+    )
+    ctx.ob("R20.5", "suffix test is dot-anchored and only for dot-prefixed entries", not suffix_bad, "; ".join(sorted(set(suffix_bad))[:2])[:700], hit, hit.node, "suffix test shape")
+    ctx.ob("R20.5", "the first character of an entry is dropped only when it is the leading dot", not strip_bad, "; ".join(sorted(set(strip_bad))[:2]), hit, hit.node, "suffix flag")
+    same = bool(host_forms) and host_forms == entry_forms
+    ctx.ob("R20.5", "Host and entry pass the same normalisation", same, f"host: {sorted(show(x) for x in host_forms)}; entry: {sorted(show(x) for x in entry_forms)}"[:900], hit, hit.node, "normalisation symmetry")
+    raw = sorted(show(x) for x in host_forms | entry_forms if not _has_idna(x))
+    ctx.ob("R20.5", "the idna codec is applied to every compared name (it is what rejects empty / over-long labels)", not raw, f"compared without the codec on some path: {raw}" if raw else "every compared form passes encode('idna')", hit, hit.node, "idna unconditional")
+
+    # exceptions of the codec
+    enc_sites: dict[int, tuple[str, ast.AST]] = {}
+    for p in paths:
+        for e in p.events:
+            if e.kind == "call" and e.term[1][0] == "attr" and e.term[1][2] == "encode" and e.term[2] and e.term[2][0] == const("idna") and e.node is not None:
+                enc_sites.setdefault(id(e.node), (e.fn, e.node))
+    ctx.floor("R20.5", "idna encodes", len(enc_sites), 1)
+    for sid, (fn, node) in enc_sites.items():
+        esc = [p for p in paths if p.outcome == "raise" and p.node is node]
+        fi = repo.try_func(f"sansio.utils.{fn}") or hit
+        ctx.ob("R20.5", "every failure of the idna codec yields False", not esc, f"`{norm(node)}` in {fn}: UnicodeError escapes under {esc[0].describe()[:300]}" if esc else f"`{norm(node)}` in {fn}: UnicodeError reaches a handler that returns on every path", fi, node, f"idna errors in {fn}")
+    other = sorted({f"{p.exc} at line {getattr(p.node, 'lineno', '?')}" for p in paths if p.outcome == "raise" and id(p.node) not in enc_sites})
+    ctx.ob("R20.5", "host_is_trusted raises nothing itself", not other, f"{other}", hit, hit.node, "no raise")
+
+    # port strip
     gh = repo.func("sansio.utils.get_host")
     ctx.saw(gh)
     bracket_in_get_host = any(isinstance(c, ast.Constant) and c.value == "[" for c in ast.walk(gh.node))
-    cuts = []
-    for fi in scope:
-        fcfg = cfg_of(fi)
-        for c in astq.calls(fi.node):
-            if isinstance(c.func, ast.Attribute) and c.func.attr in ("partition", "split", "rpartition", "rsplit") and c.args and astq.const_str(c.args[0]) == ":":
-                node = fcfg.node_of(c)
-                guards = guard_set(fcfg, node) if node is not None else set()
-                aware = any("'['" in k or "']'" in k for k, _ in guards)
-                cuts.append((fi, c, aware))
+    cuts: dict[int, list] = {}
+    for p in paths:
+        for e in p.events:
+            if e.kind == "call" and e.term[1][0] == "attr" and e.term[1][2] in ("partition", "split", "rpartition", "rsplit", "find", "rfind", "index", "rindex") and e.term[2] and e.term[2][0] == const(":") and e.node is not None:
+                recv = e.term[1][1]
+                who = {HN} if mentions(recv, HN) else _roots(recv, L)
+                d = p.decided(e.pc_len)
+                aware = any((mentions(k, const("[")) or mentions(k, const("]"))) and any(mentions(k, w) for w in who) for k in d)
+                rec = cuts.setdefault(id(e.node), [e.fn, e.node, True])
+                rec[2] = rec[2] and aware
     ctx.floor("R20.5", "port strips", len(cuts), 1)
-    for fi, c, aware in cuts:
-        ctx.ob("R20.5", "port strip does not cut a bracketed address literal at its first colon", aware or not bracket_in_get_host, f"`{norm(c)}` in {fi.name}: guarded by a bracket test: {aware}; get_host treats '[...]' hosts as IPv6 literals: {bracket_in_get_host}", fi, c, f"port strip {norm(c)} in {fi.name}")
-    n_enc = 0
+    for fn, node, aware in cuts.values():
+        fi = repo.try_func(f"sansio.utils.{fn}") or hit
+        ctx.ob("R20.5", "port strip does not cut a bracketed address literal at its first colon", aware or not bracket_in_get_host, f"`{norm(node)}` in {fn}: preceded by a bracket test on every path: {aware}; get_host treats '[...]' hosts as IPv6 literals: {bracket_in_get_host}", fi, node, f"port strip {norm(node)} in {fn}")
 
-    def covering_try(fi: FuncInfo, node: ast.AST) -> tuple[bool, str]:
-        tr = astq.enclosing(node, (ast.Try,))
-        fact = "not inside a try"
-        while isinstance(tr, ast.Try):
-            if any(node is x for s in tr.body for x in ast.walk(s)):
-                for h in tr.handlers:
-                    names = [dotted(e) or "" for e in (h.type.elts if isinstance(h.type, ast.Tuple) else [h.type])] if h.type is not None else ["BaseException"]
-                    covers = any(nm.rsplit(".", 1)[-1] in ("UnicodeError", "ValueError", "Exception", "BaseException") for nm in names)
-                    falsy = any(isinstance(s, ast.Return) and norm(s.value) == "False" for s in h.body)
-                    fact = f"handler {names}: covers UnicodeError={covers}; returns False={falsy}"
-                    if covers and falsy:
-                        return True, fact
-            tr = astq.enclosing(tr, (ast.Try,))
-        return False, fact
+    # missing host
+    bad = []
+    for p in paths:
+        for e in p.events:
+            if e.kind == "call" and mentions(e.term, HN):
+                d = p.decided(e.pc_len)
+                if not (d.get(HN) is True or d.get(("cmp", "is", HN, NONE)) is False):
+                    bad.append(f"`{show(e.term)}` before the host was found to be present")
+                break
+    absent = [p for p in paths if p.decided().get(HN) is False or p.decided().get(("cmp", "is", HN, NONE)) is True]
+    bad += [f"verdict `{show(p.value)}` for a missing host" for p in absent if p.outcome != "return" or p.truthy]
+    ctx.ob("R20.5", "a missing Host is never trusted", not bad and bool(absent), "; ".join(sorted(set(bad))[:2]), hit, hit.node, "empty host")
 
-    def covered_everywhere(fi: FuncInfo, depth: int = 0) -> tuple[bool, str]:
-        sites = [(g_, c) for g_ in scope for c in astq.calls(g_.node) if dotted(c.func) == fi.name]
-        if not sites or depth > 3:
-            return False, "helper is never called from host_is_trusted"
-        for g_, c in sites:
-            ok_, why = covering_try(g_, c)
-            if ok_:
-                continue
-            if g_ is hit:
-                return False, f"call in host_is_trusted not covered: {why}"
-            ok2, why2 = covered_everywhere(g_, depth + 1)
-            if not ok2:
-                return False, why2
-        return True, "covered at every call site"
 
-    for fi in scope:
-        for c in astq.calls(fi.node):
-            if isinstance(c.func, ast.Attribute) and c.func.attr == "encode" and c.args and astq.const_str(c.args[0]) == "idna":
-                n_enc += 1
-                ok, fact = covering_try(fi, c)
-                if not ok and fi is not hit:
-                    ok, fact2 = covered_everywhere(fi)
-                    fact += f"; {fact2}"
-                ctx.ob("R20.5", "every failure of the idna codec yields False", ok, f"`{norm(c)}` in {fi.name}: {fact}", fi, c, f"idna errors {_shape_of(c, 'hostname').replace('ref', '_').replace('host', '_')}")
-                # the codec is what rejects empty and over-long labels: it must run for every name, not only for some
-                fcfg_ = cfg_of(fi)
-                cond = set()
-                for tn_, lab_ in fcfg_.guards(fcfg_.node_of(c)):
-                    if tn_.kind != "test":
-                        continue
-                    k_, p_ = canon(tn_.ast)
-                    if "'['" in k_ or "']'" in k_:
-                        continue  # bracketed address literal handling
-                    other = fcfg_.succ(tn_, "F" if lab_ == "T" else "T")
-                    if other and all(isinstance(o.ast, ast.Return) and norm(o.ast.value) == "False" for o in other):
-                        continue  # the other edge rejects the name outright
-                    cond.add((k_, (lab_ == "T") == p_))
-                ctx.ob("R20.5", "the idna codec is applied to every name (it is what rejects empty / over-long labels)", not cond, f"`{norm(c)}` in {fi.name} is conditional on {_fmt(cond)}" if cond else "unconditional", fi, c, f"idna unconditional in {fi.name}")
-    ctx.floor("R20.5", "idna encodes", n_enc, 1)
-    first = [s for s in hit.node.body if not (isinstance(s, ast.Expr) and isinstance(s.value, ast.Constant))][0]
-    ctx.ob("R20.5", "a missing Host is never trusted", isinstance(first, ast.If) and canon(first.test) == ("hostname", False) and any(isinstance(s, ast.Return) and norm(s.value) == "False" for s in first.body), "", hit, first, "empty host")
-    nonconst = [r for r in astq.returns_of(hit.node) if norm(r.value) not in ("True", "False")]
-    ctx.ob("R20.5", "every verdict is a constant: True only under the match conditions, False otherwise", not nonconst, f"non-constant returns: {[norm(r) for r in nonconst]}", hit, nonconst[0] if nonconst else hit.node, "constant verdicts")
-    gcfg = cfg_of(gh)
-    raises = [n for n in gcfg.nodes if isinstance(n.ast, ast.Raise) and astq.raised_name(n.ast) == "SecurityError"]
-    ok = False
-    fact = f"{len(raises)} raise SecurityError"
-    if len(raises) == 1:
-        g = guard_set(gcfg, raises[0])
-        ok = g == {("trusted_hosts is None", False), ("host_is_trusted(host, trusted_hosts)", False)}
-        fact = f"guards {_fmt(g)}"
-        rets = [gcfg.node_of(r) for r in astq.returns_of(gh.node)]
-        tn = [t for t in gcfg.tests() if canon(t.ast)[0] == "host_is_trusted(host, trusted_hosts)"]
-        nn = [t for t in gcfg.tests() if canon(t.ast)[0] == "trusted_hosts is None"]
-        ok = ok and len(tn) == 1 and len(nn) == 1 and all(r.id not in gcfg.reach(avoid_nodes=tn, avoid_edges=[(nn[0], "T" if canon(nn[0].ast)[1] else "F")]) for r in rets)
-    ctx.ob("R20.5", "get_host raises SecurityError for an untrusted host whenever a list is configured", ok, fact, gh, gh.node, "get_host enforcement")
+# ---------------------------------------------------------------------------------------------------------------
+# R20.5: enforcement in get_host and its callers
+
+
+def _enforcement_rules(ctx: Ctx) -> None:
+    repo = ctx.repo
+    gh = repo.func("sansio.utils.get_host")
+    ctx.saw(gh)
+    if "trusted_hosts" not in gh.params:
+        raise AnalysisError("get_host has no trusted_hosts parameter")
+    TH: Term = ("param", "trusted_hosts")
+    ex = explore(gh, {"host_is_trusted", "get_host"})
+    bad: list[str] = []
+    n_checked = n_raise = 0
+    for p in ex.paths:
+        d = p.decided()
+        if p.outcome == "raise":
+            if p.exc == "SecurityError":
+                n_raise += 1
+            continue
+        if d.get(("cmp", "is", TH, NONE)) is True:
+            continue
+        ok = False
+        for k, v in p.pc:
+            if v and k[0] == "call" and k[1] == N("host_is_trusted") and len(k[2]) == 2 and k[2][1] == TH and k[2][0] == p.value:
+                ok = True
+        if ok:
+            n_checked += 1
+        else:
+            bad.append(f"`return {show(p.value)}` under {p.describe()[:400]}")
+    if not n_checked:
+        bad.append("no path returns a host that host_is_trusted accepted")
+    if not n_raise:
+        bad.append("no path raises SecurityError")
+    ctx.ob("R20.5", "get_host raises SecurityError for an untrusted host whenever a list is configured", not bad, "; ".join(bad[:2]) or f"{n_checked} returning path(s) with a list, each after host_is_trusted(<returned host>, trusted_hosts); {n_raise} raising SecurityError", gh, gh.node, "get_host enforcement")
+
     rq = repo.func("sansio.request.Request.host")
     ctx.saw(rq)
-    ctx.ob("R20.5", "Request.host passes its trusted_hosts to get_host", any(isinstance(c.func, ast.Name) and c.func.id == "get_host" and any(norm(a) == "self.trusted_hosts" for a in list(c.args) + [k.value for k in c.keywords]) for c in astq.calls(rq.node)), "", rq, rq.node, "request host forwards list")
+    exr = explore(rq, ())
+    calls = [(p, e) for p in exr.paths for e in p.events if e.kind == "call" and _is_call_to(e.term, None, "get_host")]
+    okr = bool(calls) and all((len(e.term[2]) >= 4 and e.term[2][3] == A(SELF, "trusted_hosts")) or dict(e.term[3]).get("trusted_hosts") == A(SELF, "trusted_hosts") for _, e in calls) and all(any(_is_call_to(e.term, None, "get_host") for e in p.events) for p in exr.paths if p.outcome == "return")
+    ctx.ob("R20.5", "Request.host passes its trusted_hosts to get_host", okr, f"{len(calls)} call(s)", rq, rq.node, "request host forwards list")
     wg = repo.func("wsgi.get_host")
     ctx.saw(wg)
-    ctx.ob("R20.5", "wsgi.get_host passes trusted_hosts on", any(any(norm(a) == "trusted_hosts" for a in list(c.args) + [k.value for k in c.keywords]) for c in astq.calls(wg.node)), "", wg, wg.node, "wsgi get_host forwards list")
-
-
-def _dot_flags(fh: F) -> set[str]:
-    """locals that are true exactly when the current entry started with '.':
-    `flag = ref.startswith('.')`, or `flag = True` / `flag = False` on the two edges of that test."""
-    cfg = fh.cfg
-    out: set[str] = set()
-    names = {t_.id for s in walk_no_nested(fh.fi.node) if isinstance(s, ast.Assign) for t_ in s.targets if isinstance(t_, ast.Name)}
-    st = [t for t in fh.tests() if norm(t.ast) == "ref.startswith('.')"]
-    for nm in names:
-        defs = astq.assigns_to(fh.fi.node, nm)
-        if len(defs) == 1 and defs[0][1] is not None and norm(defs[0][1]) == "ref.startswith('.')":
-            out.add(nm)
-            continue
-        if len(defs) == 2 and len(st) == 1 and all(v is not None and norm(v) in ("True", "False") for _, v in defs):
-            good = all((norm(v) == "True" and cfg.edge_dominates(st[0], "T", cfg.node_of(s))) or (norm(v) == "False" and cfg.edge_dominates(st[0], "F", cfg.node_of(s))) for s, v in defs)
-            if good and {norm(v) for _, v in defs} == {"True", "False"}:
-                out.add(nm)
-    return out
+    if "trusted_hosts" not in wg.params:
+        raise AnalysisError("wsgi.get_host has no trusted_hosts parameter")
+    exw = explore(wg, ())
+    calls = [(p, e) for p in exw.paths for e in p.events if e.kind == "call" and _is_call_to(e.term, None, "get_host")]
+    okw = bool(calls) and all((len(e.term[2]) >= 4 and e.term[2][3] == TH) or dict(e.term[3]).get("trusted_hosts") == TH for _, e in calls) and all(any(_is_call_to(e.term, None, "get_host") for e in p.events) for p in exw.paths if p.outcome == "return")
+    ctx.ob("R20.5", "wsgi.get_host passes trusted_hosts on", okw, f"{len(calls)} call(s)", wg, wg.node, "wsgi get_host forwards list")
